@@ -1,11 +1,11 @@
 /-
-  Lemmas for C14, part 3: `stripvdomprepend()` (`Nq.Bounce.stripvdomW`) against C10's model of
+  Lemmas for C14, part 3: `stripvdomprepend()` (`Nq.Bounce.stripvdom`) against C10's model of
   `rewrite()` (`Nq.Rewrite.rewrite`; used through `rewrite_eq_G` / `specTail` of
   `Nq.Lemmas.RewriteSpec`, which is imported read-only).  No Mathlib.
 
   `rewrite c r` is `⟨channel, tag, addr⟩`: `addr` is the recipient after the default host and the
   percent hack, `tag` the virtualdomains prepend (empty = none); the channel file gets
-  `recipOf = addr` or `tag-addr`.  The lemmas say when `stripvdomW` applied to that string gives
+  `recipOf = addr` or `tag-addr`.  The lemmas say when `stripvdom` applied to that string gives
   `addr` back.
 -/
 import Nq.Lemmas.Bounce
@@ -207,79 +207,49 @@ theorem userSplit_shorter (es : List (Bytes × Bytes)) (recip rest : Bytes)
 /-! ### `stripvdomprepend` applied to what `rewrite()` wrote -/
 
 /-- a recipient kept by `locals` is named as it is -/
-theorem strip_local (w : Bool) (c : Rewrite.Cfg) (r : Bytes)
+theorem strip_local (c : Rewrite.Cfg) (r : Bytes)
     (hc : (Rewrite.rewrite c r).chan = .loc) (ht : (Rewrite.rewrite c r).tag = []) :
-    stripvdomW w (tablesOf c) (Rewrite.rewrite c r).addr = (Rewrite.rewrite c r).addr := by
+    stripvdom (tablesOf c) (Rewrite.rewrite c r).addr = (Rewrite.rewrite c r).addr := by
   obtain ⟨a, dom, hd, h | ⟨_, h, _⟩ | ⟨_, t, htne, h, _⟩⟩ := rewrite_cases c r
   · rw [h.2]
-    simp [stripvdomW, domainOf_at a dom hd, cmMember_tablesOf, h.1]
+    simp [stripvdom, domainOf_at a dom hd, cmMember_tablesOf, h.1]
   · rw [h] at hc; cases hc
   · rw [h] at ht; exact absurd ht htne
 
-/-- a recipient sent to the remote channel is named as it is, provided the code handles an exception
-entry of its own (`faithful`) and no virtual-user cut applies to the string -/
-theorem strip_remote (w : Bool) (c : Rewrite.Cfg) (r : Bytes)
-    (hc : (Rewrite.rewrite c r).chan = .rem)
-    (hf : faithful w (tablesOf c).vdoms (Rewrite.rewrite c r).addr = true)
-    (hu : hasException (tablesOf c).vdoms (Rewrite.rewrite c r).addr = true ∨
-          userSplit (tablesOf c).vdoms (Rewrite.rewrite c r).addr = none) :
-    stripvdomW w (tablesOf c) (Rewrite.rewrite c r).addr = (Rewrite.rewrite c r).addr := by
-  rw [stripvdomW_eq_named w _ _ hf]
-  obtain ⟨a, dom, hd, h | ⟨hl, h, hv⟩ | ⟨_, t, _, h, _⟩⟩ := rewrite_cases c r
-  · rw [h.2] at hc; cases hc
-  · rw [h] at hu ⊢
-    simp only at hu ⊢
-    unfold namedRecipient
-    have hil : isLocal (tablesOf c).locals dom = false := by
-      rw [← cmMember_eq_isLocal, cmMember_tablesOf, hl]
-    rw [← domainOf_eq_domainPart, domainOf_at a dom hd]
-    simp only [hil, Bool.false_eq_true, if_false]
-    by_cases hx : hasException (tablesOf c).vdoms (a ++ AT :: dom) = true
-    · simp [hx]
-    · have hx' : hasException (tablesOf c).vdoms (a ++ AT :: dom) = false := by simpa using hx
-      have hus : userSplit (tablesOf c).vdoms (a ++ AT :: dom) = none := by
-        rcases hu with hu | hu
-        · exact absurd hu hx
-        · exact hu
-      simp only [hx', Bool.false_eq_true, if_false, prefixUndone, hus]
-      rcases hv with hv | ⟨_, hg | hg⟩
-      · exfalso
-        have : hasException (tablesOf c).vdoms (a ++ AT :: dom) = true := by
-          simp [hasException, entryFor_tablesOf, hv]
-        exact hx this
-      · simp [hg]
-      · simp [hg]
+/-- `rewrite()` prepends only on the local channel -/
+theorem remote_untagged (c : Rewrite.Cfg) (r : Bytes) (hc : (Rewrite.rewrite c r).chan = .rem) :
+    (Rewrite.rewrite c r).tag = [] := by
+  obtain ⟨a, dom, hd, h | ⟨_, h, _⟩ | ⟨_, t, htne, h, _⟩⟩ := rewrite_cases c r
+  · rw [h.2]
+  · rw [h]
   · rw [h] at hc; cases hc
 
-/-- a recipient that got a prefix: the prefix is removed, provided the prefixed string has no
-exception entry of its own that the code looks at, and the only virtual-user reading of the prefixed
-string (if any) is the right one -/
-theorem strip_prefixed (w : Bool) (c : Rewrite.Cfg) (r : Bytes)
+theorem tagged_local (c : Rewrite.Cfg) (r : Bytes) (ht : (Rewrite.rewrite c r).tag ≠ []) :
+    (Rewrite.rewrite c r).chan = .loc := by
+  cases hc : (Rewrite.rewrite c r).chan with
+  | loc => rfl
+  | rem => exact absurd (remote_untagged c r hc) ht
+
+/-- a recipient that got a prefix: the prefix is removed, provided the only virtual-user reading of
+the prefixed string (if any) is the right one -/
+theorem strip_prefixed (c : Rewrite.Cfg) (r : Bytes)
     (ht : (Rewrite.rewrite c r).tag ≠ [])
-    (hx : w = true → hasException (tablesOf c).vdoms
-            ((Rewrite.rewrite c r).tag ++ 45 :: (Rewrite.rewrite c r).addr) = false)
     (hu : ∀ rest, userSplit (tablesOf c).vdoms
             ((Rewrite.rewrite c r).tag ++ 45 :: (Rewrite.rewrite c r).addr) = some rest →
             rest = (Rewrite.rewrite c r).addr) :
-    stripvdomW w (tablesOf c) ((Rewrite.rewrite c r).tag ++ 45 :: (Rewrite.rewrite c r).addr)
+    stripvdom (tablesOf c) ((Rewrite.rewrite c r).tag ++ 45 :: (Rewrite.rewrite c r).addr)
       = (Rewrite.rewrite c r).addr := by
   obtain ⟨a, dom, hd, h | ⟨_, h, _⟩ | ⟨hl, t, htne, h, hv⟩⟩ := rewrite_cases c r
   · rw [h.2] at ht; exact absurd rfl ht
   · rw [h] at ht; exact absurd rfl ht
-  · rw [h] at hx hu ⊢
-    simp only at hx hu ⊢
+  · rw [h] at hu ⊢
+    simp only at hu ⊢
     have hdom : domainOf (t ++ 45 :: (a ++ AT :: dom)) = some dom := by
       have := domainOf_append (t ++ [45]) (a ++ AT :: dom) dom (domainOf_at a dom hd)
       simpa using this
-    have hwx : (w && cmLookup (tablesOf c).vdoms (t ++ 45 :: (a ++ AT :: dom)) == some []) = false := by
-      cases w with
-      | false => rfl
-      | true =>
-        have := hx rfl
-        simpa [hasException, entryFor_eq_cmLookup] using this
-    unfold stripvdomW
+    unfold stripvdom
     rw [hdom]
-    simp only [cmMember_tablesOf, hl, hwx, Bool.false_eq_true, if_false, userStripGo_eq_userSplit,
+    simp only [cmMember_tablesOf, hl, Bool.false_eq_true, if_false, userStripGo_eq_userSplit,
       firstHit_eq_governing]
     cases hus : userSplit (tablesOf c).vdoms (t ++ 45 :: (a ++ AT :: dom)) with
     | some rest => exact hu rest hus
@@ -293,6 +263,62 @@ theorem strip_prefixed (w : Bool) (c : Rewrite.Cfg) (r : Bytes)
           rw [List.isPrefixOf_iff_prefix]; exact ⟨a ++ AT :: dom, by simp [DASH]⟩
         simp only [hg, hpe, hpre, Bool.not_false, Bool.and_self, if_true]
         simp
+
+/-- **end to end on the name**: what `addbounce` (flag = "local channel", as `del_dochan` passes it)
+names for the channel-file recipient `rewrite()` wrote is the routed address -/
+theorem nameOf_rewrite (c : Rewrite.Cfg) (r : Bytes)
+    (hu : (Rewrite.rewrite c r).tag ≠ [] → ∀ rest, userSplit (tablesOf c).vdoms (recipOf (Rewrite.rewrite c r)) = some rest →
+            rest = (Rewrite.rewrite c r).addr) :
+    nameOf (tablesOf c) ((Rewrite.rewrite c r).chan == .loc) (recipOf (Rewrite.rewrite c r)) = (Rewrite.rewrite c r).addr := by
+  have e1 : (Rewrite.Chan.rem == Rewrite.Chan.loc) = false := by decide
+  have e2 : (Rewrite.Chan.loc == Rewrite.Chan.loc) = true := by decide
+  cases hc : (Rewrite.rewrite c r).chan with
+  | rem =>
+    have ht := remote_untagged c r hc
+    simp [nameOf, recipOf, ht, e1]
+  | loc =>
+    by_cases ht : (Rewrite.rewrite c r).tag = []
+    · have := strip_local c r hc ht
+      simp only [recipOf, ht, if_true, nameOf, e2]
+      exact this
+    · have h2 := hu ht
+      simp only [recipOf, ht, if_false] at h2 ⊢
+      have := strip_prefixed c r ht h2
+      simp only [nameOf, e2, if_true]
+      exact this
+
+/-! ### which address that is: the recipient after `rewrite()`'s own normalisation -/
+
+theorem specTail_addr (vd : Bytes → Option Bytes) (c : Rewrite.Cfg) (addr : Bytes) :
+    (RewriteSpec.specTail vd c addr).addr = addr := by
+  unfold RewriteSpec.specTail
+  split
+  · rfl
+  · split
+    · split <;> rfl
+    · rfl
+
+/-- `(rewrite c r).addr` is the recipient with the default host appended if it has no '@' and the
+percent hack applied (C10's `pctFix`), whatever the routing decision -/
+theorem rewrite_addr_spec (c : Rewrite.Cfg) (r : Bytes) :
+    (Rewrite.rewrite c r).addr = (match Route.splitLast AT r with
+      | some p => Route.pctFix c.ph (p.1.length + 1) p.1 p.2
+      | none => Route.pctFix c.ph (r.length + 1) r c.env) := by
+  rw [RewriteSpec.rewrite_eq_G, RewriteSpec.routeSpecG_eq]
+  exact specTail_addr _ c _
+
+/-- a recipient with an '@' whose domain is not subject to the percent hack is the routed address itself -/
+theorem rewrite_addr_plain (c : Rewrite.Cfg) (r l d : Bytes) (h : Route.splitLast AT r = some (l, d))
+    (hp : Route.listed c.ph d = false) : (Rewrite.rewrite c r).addr = r := by
+  rw [rewrite_addr_spec, h]
+  simp only [Route.pctFix, hp, Bool.false_eq_true, if_false]
+  exact (RewriteSpec.splitLast_some h).1.symm
+
+/-- a recipient without '@' gets `@envnoathost` -/
+theorem rewrite_addr_noat (c : Rewrite.Cfg) (r : Bytes) (h : Route.splitLast AT r = none)
+    (hp : Route.listed c.ph c.env = false) : (Rewrite.rewrite c r).addr = r ++ AT :: c.env := by
+  rw [rewrite_addr_spec, h]
+  simp only [Route.pctFix, hp, Bool.false_eq_true, if_false]
 
 /-- sufficient for the unambiguity hypothesis of `strip_prefixed`: the prefix is the prepend of the
 address's own (virtual-user) entry and contains no dash — the first dash of the string is then the
